@@ -50,15 +50,15 @@ TRUSTED = ["z3 5.1", "CPython 3.12", "vf.cfgsat.encode", "vf.oracles.c06 referen
 
 
 def tasks(tier):
-    ts = []
-    for N in range(NMAX[tier], 0, -1):          # largest first: better packing over the worker pool
+    """one task per N and question.  Ascending N: the driver reports the first few candidates per obligation in task order,
+    so the shortest witnesses come first."""
+    ts = [{"q": "lexer", "N": 0, "tier": tier}]
+    for N in range(1, NMAX[tier] + 1):
         parts = N if N >= SPLIT_FROM else 1
         ts += [{"q": "structure", "N": N, "tier": tier, "part": [k, parts]} for k in range(parts)]
         ts += [{"q": q, "N": N, "tier": tier} for q in ("language", "ambiguity")]
-        if N == NMAX[tier]:
-            ts.append({"q": "cover", "N": COVER_NMAX[tier], "tier": tier})
-            ts.append({"q": "lexer", "N": 0, "tier": tier})
-    for N in range(DUMP_NMAX[tier], 0, -1):
+    ts.append({"q": "cover", "N": COVER_NMAX[tier], "tier": tier})
+    for N in range(1, DUMP_NMAX[tier] + 1):
         of = DUMP_SHARDS.get(N, 1)
         ts += [{"q": "dump", "N": N, "tier": tier, "part": [k, of]} for k in range(of)]
     return ts
